@@ -23,6 +23,8 @@ extern crate alloc;
 
 mod hash;
 pub use hash::{Digest, ElementHasher, Hasher};
+#[cfg(winterfell_verif)]
+pub use hash::verif_hooks;
 pub mod hashers {
     //! Contains implementations of currently supported hash functions.
 
